@@ -5,6 +5,8 @@ import (
 	"flag"
 	"fmt"
 	"os"
+	"runtime/debug"
+	"runtime/pprof"
 	"strconv"
 	"strings"
 	"time"
@@ -43,6 +45,7 @@ func setupToolchain() {
 }
 
 func main() {
+	debug.SetGCPercent(400)
 	setupToolchain()
 	if len(os.Args) < 2 {
 		fmt.Println("usage: gosym run|check ...")
@@ -73,7 +76,13 @@ func cmdRun(args []string) {
 	trace := fs.Bool("trace", false, "trace instructions")
 	fs.BoolVar(&verbose, "v", false, "verbose")
 	fs.StringVar(&solverBin, "solver", "z3", "z3|z3-new|cvc5")
+	prof := fs.String("cpuprofile", "", "write cpu profile")
 	fs.Parse(args)
+	if *prof != "" {
+		f, _ := os.Create(*prof)
+		pprof.StartCPUProfile(f)
+		defer pprof.StopCPUProfile()
+	}
 	t0 := time.Now()
 	P, err := LoadProgram(*repo, *hdir)
 	if err != nil {
@@ -105,4 +114,3 @@ func cmdRun(args []string) {
 		}
 	}
 }
-
